@@ -263,7 +263,8 @@ func ParseResponses(out []byte) (rs []Resp, rest []byte) {
 			cl = 0
 		}
 		if bodyStart+cl > len(out) {
-			break
+			// the announced body is not (yet) there: a response written with SkipBody, or cut off by a close
+			cl = len(out) - bodyStart
 		}
 		r.Body = out[bodyStart : bodyStart+cl]
 		pos = bodyStart + cl
@@ -302,7 +303,7 @@ func (c Cfg) Entry() string {
 
 // Op is one handler operation (Model/Serve.v hop).
 type Op struct {
-	K string `json:"k"`           // status | close | hdrconn | hijack | noresp | timeout | other | shutdown
+	K string `json:"k"`           // status | close | hdrconn | hijack | noresp | timeout | skipbody | other | shutdown
 	V hlib.B `json:"v,omitempty"` // hdrconn value
 	N int    `json:"n,omitempty"` // status code / noresp flag
 }
@@ -321,6 +322,8 @@ func (o Op) Coq() string {
 		return "(HijackNoResp " + hlib.Bool(o.N != 0) + ")"
 	case "timeout":
 		return "TimeoutOp"
+	case "skipbody":
+		return "SkipBodyOp"
 	default:
 		return "OtherOp"
 	}
@@ -643,6 +646,8 @@ func RunScenario(sc Scenario) Result {
 					ctx.HijackSetNoResponse(o.N != 0)
 				case "timeout":
 					ctx.TimeoutError("t")
+				case "skipbody":
+					ctx.Response.SkipBody = true
 				case "shutdown":
 					go srv.Shutdown() //nolint:errcheck
 					for i := 0; i < 2000 && !fasthttp.VerifServerStopping(srv); i++ {
